@@ -84,6 +84,11 @@ unsigned int IOStack::Size() const {
  * Append (length) bytes of data to the front of the buffer.
  */
 void IOStack::Write(const uint8_t *data, unsigned int length) {
+  if (length == 0) {
+    // nothing to store, don't add an empty block
+    return;
+  }
+
   if (m_blocks.empty()) {
     PrependBlock();
   }
